@@ -6,7 +6,8 @@
    checks/C07.py (extracted get_mesh_runs / merge_maps / increment_mesh_ids /
    compose_relation / initialize_original against the real code). *)
 From Coq Require Import ZArith List Bool Lia Sorted Permutation QArith.
-From MV Require Import Codec.RelationDefs Codec.RelationModel.
+From MV Require Import Codec.RelationDefs Codec.RelationModel Codec.RelationBary Codec.RelatedCheckDefs Codec.RelatedCheck
+  Codec.RelationPropsDefs Codec.RelationProps.
 Import ListNotations.
 Local Open Scope Z_scope.
 
@@ -264,47 +265,241 @@ Example barycentric_example :
   /\ edge_snapped (mkQ3 0 0 0, mkQ3 4 0 0, mkQ3 0 4 0) (mkQ3 1 1 0) ((1 # 100) * (1 # 100)) 2 = false.
 Proof. vm_compute. repeat split; reflexivity. Qed.
 
-(* Snapped branches -- PARTIAL: proved are (1) a corner within tolerance returns
-   that corner's unit vector (first such corner wins), (2) inside the triangle
-   branch a coordinate whose edge line is within tolerance is exactly 0 and the
-   weights still sum to 1 (so the result is a combination of that edge's two
-   corners when a single edge snaps), (3) the needle branch gives 0 to the long
-   side's opposite corner and weights summing to 1.  NOT proved: that the
-   snapped weights are non-negative / that the interpolated point stays within
-   tolerance of v (that needs an error analysis in tolerance; the exact checker
-   validates it per output instead). *)
-Theorem barycentric_snap_vertex_partial :
+(* ---------------------------------------------------------------- snapped branches of GetBarycentric
+   (all over Q, exact).  tol2 = tolerance^2. *)
+
+(* vertex snap: the first corner within tolerance wins, the result is its unit vector (weights >= 0,
+   sum 1) and the interpolated point P_i is closer than tolerance to v. *)
+Theorem barycentric_snap_vertex :
   forall v tri tol,
     let tol2 := tol * tol in
-    (near_vert tri v tol2 0 = true -> get_barycentric v tri tol = (1, 0, 0)) /\
-    (near_vert tri v tol2 0 = false -> near_vert tri v tol2 1 = true -> get_barycentric v tri tol = (0, 1, 0)) /\
+    let dist2 i := q3dot (q3sub v (q3nth tri i)) (q3sub v (q3nth tri i)) in
+    (near_vert tri v tol2 0 = true -> get_barycentric v tri tol = (1, 0, 0) /\ dist2 0%nat < tol2) /\
+    (near_vert tri v tol2 0 = false -> near_vert tri v tol2 1 = true -> get_barycentric v tri tol = (0, 1, 0) /\ dist2 1%nat < tol2) /\
     (near_vert tri v tol2 0 = false -> near_vert tri v tol2 1 = false -> near_vert tri v tol2 2 = true ->
-       get_barycentric v tri tol = (0, 0, 1)).
-Proof. exact barycentric_vertex_snap. Qed.
-Print Assumptions barycentric_snap_vertex_partial.
+       get_barycentric v tri tol = (0, 0, 1) /\ dist2 2%nat < tol2).
+Proof. exact snap_vertex_full. Qed.
+Print Assumptions barycentric_snap_vertex.
 
-Theorem barycentric_snap_edge_partial :
-  forall p0 p1 p2 v tol i,
+(* edge snap (triangle branch): if v is inside the tolerance-grown triangle - every raw weight is
+   non-negative or its edge line is within tolerance (snapped) - and the kept weights have a
+   positive sum, then the returned weights are non-negative, sum to 1, and every snapped corner
+   gets exactly 0 (so the result is a convex combination of the corners of the edge(s) v sits on). *)
+Theorem barycentric_snap_edge :
+  forall p0 p1 p2 v tol,
     let tri := (p0, p1, p2) in let tol2 := tol * tol in let N := tri_crossP tri in
     near_vert tri v tol2 0 = false -> near_vert tri v tol2 1 = false -> near_vert tri v tol2 2 = false ->
     Qltb (edge_d2 tri (long_side tri)) tol2 = false ->
     Qltb (edge_d2 tri (long_side tri) * tol2) (q3dot N N) = true ->
-    (i < 3)%nat -> edge_snapped tri v tol2 i = true ->
-    let u j := if edge_snapped tri v tol2 j then 0 else q3dot (bary_crossPv tri v j) N in
-    ~ u 0%nat + u 1%nat + u 2%nat == 0 ->
-    qnth (get_barycentric v tri tol) i == 0 /\
-    (let '(a, b, c) := get_barycentric v tri tol in a + b + c == 1).
-Proof. exact barycentric_edge_snap. Qed.
-Print Assumptions barycentric_snap_edge_partial.
+    (forall i, (i < 3)%nat -> edge_snapped tri v tol2 i = true \/ 0 <= raw_w tri v i) ->
+    0 < snapped_w tri v tol2 0 + snapped_w tri v tol2 1 + snapped_w tri v tol2 2 ->
+    let '(a, b, c) := get_barycentric v tri tol in
+    0 <= a /\ 0 <= b /\ 0 <= c /\ a + b + c == 1 /\
+    (edge_snapped tri v tol2 0 = true -> a == 0) /\ (edge_snapped tri v tol2 1 = true -> b == 0) /\
+    (edge_snapped tri v tol2 2 = true -> c == 0).
+Proof. exact snap_edge_weights. Qed.
+Print Assumptions barycentric_snap_edge.
 
-Theorem barycentric_needle_partial :
+(* error of an edge snap.  With r_i the raw weights (r0+r1+r2 = N.N, v' = sum r_i P_i / N.N the
+   projection of v into the plane - barycentric_affine) and corner 0's edge snapped, each coordinate
+   of the interpolated point differs from v' by  w0 (v' - P0) / (1 - w0),  w0 = r0 / N.N;  and the
+   dropped weight is small:  r0^2 <= |e0|^2 tol^2 |N|^2,  i.e. |w0| <= tol / h0  (h0 the height over
+   the snapped edge, > tol in this branch).  Hence |result - v'| <= (tol/h0) |v' - P0| / (1 - tol/h0). *)
+Theorem barycentric_snap_edge_error :
+  (forall r0 r1 r2 x0 x1 x2 : Q, ~ r1 + r2 == 0 -> ~ r0 + r1 + r2 == 0 ->
+     (r1 * x1 + r2 * x2) / (r1 + r2) - (r0 * x0 + r1 * x1 + r2 * x2) / (r0 + r1 + r2)
+     == r0 * ((r0 * x0 + r1 * x1 + r2 * x2) / (r0 + r1 + r2) - x0) / (r1 + r2)) /\
+  (forall tri v tol2 i, edge_snapped tri v tol2 i = true ->
+     raw_w tri v i * raw_w tri v i <= edge_d2 tri i * tol2 * q3dot (tri_crossP tri) (tri_crossP tri)).
+Proof. exact (conj snap_edge_error_identity snap_edge_weight_bound). Qed.
+Print Assumptions barycentric_snap_edge_error.
+
+(* needle branch (area^2 <= longest^2 tol^2): the corner opposite the longest edge gets 0, the weights
+   sum to 1, they are non-negative when the projection parameter alpha lies in [0,1], and the
+   interpolated point is the orthogonal projection of v onto the longest edge's line (so the error is
+   exactly v's distance from that line). *)
+Theorem barycentric_needle :
   forall p0 p1 p2 v tol,
     let tri := (p0, p1, p2) in let tol2 := tol * tol in let N := tri_crossP tri in
     near_vert tri v tol2 0 = false -> near_vert tri v tol2 1 = false -> near_vert tri v tol2 2 = false ->
     Qltb (edge_d2 tri (long_side tri)) tol2 = false ->
     Qltb (edge_d2 tri (long_side tri) * tol2) (q3dot N N) = false ->
     ~ edge_d2 tri (long_side tri) == 0 ->
-    qnth (get_barycentric v tri tol) (long_side tri) == 0 /\
-    (let '(a, b, c) := get_barycentric v tri tol in a + b + c == 1).
-Proof. exact barycentric_line. Qed.
-Print Assumptions barycentric_needle_partial.
+    let L := long_side tri in
+    let e := q3nth (tri_edges tri) L in
+    let alpha := q3dot (q3sub v (q3nth tri (next3 L))) e / edge_d2 tri L in
+    let '(a, b, c) := get_barycentric v tri tol in
+    qnth (a, b, c) L == 0 /\ a + b + c == 1 /\
+    (0 <= alpha -> alpha <= 1 -> 0 <= a /\ 0 <= b /\ 0 <= c) /\
+    q3dot (q3sub (mkQ3 (a * qx p0 + b * qx p1 + c * qx p2) (a * qy p0 + b * qy p1 + c * qy p2) (a * qz p0 + b * qz p1 + c * qz p2)) v) e == 0.
+Proof. exact needle_full. Qed.
+Print Assumptions barycentric_needle.
+
+(* ... and that distance is at most tolerance for every point of the triangle: with |N|^2 <= |e|^2 tol^2
+   (the branch condition) and v = a P0 + b P1 + c P2, a in [0,1], a + b + c = 1, the squared distance
+   |e x (v - P1)|^2 / |e|^2 from the line of the edge opposite P0 is a^2 |N|^2 / |e|^2 <= tol^2
+   (stated for corner 0; the other corners by renaming). *)
+Theorem barycentric_needle_error :
+  forall (p0 p1 p2 : Q3) (a b tol2 : Q),
+    let c := 1 - a - b in
+    let v := mkQ3 (a * qx p0 + b * qx p1 + c * qx p2) (a * qy p0 + b * qy p1 + c * qy p2) (a * qz p0 + b * qz p1 + c * qz p2) in
+    let e := q3sub p2 p1 in
+    let N := tri_crossP (p0, p1, p2) in
+    0 <= a -> a <= 1 -> q3dot N N <= q3dot e e * tol2 ->
+    q3dot (q3cross e (q3sub v p1)) (q3cross e (q3sub v p1)) <= q3dot e e * tol2.
+Proof. exact needle_bound. Qed.
+Print Assumptions barycentric_needle_error.
+
+(* point branch (longest edge shorter than tolerance): the answer is corner 0's unit vector.
+   PARTIAL: the error bound |P0 - v| < tolerance for points v of the triangle (all edges are shorter
+   than the longest one, which is shorter than tolerance) is not proved. *)
+Theorem barycentric_point_partial :
+  forall v tri tol,
+    let tol2 := tol * tol in
+    near_vert tri v tol2 0 = false -> near_vert tri v tol2 1 = false -> near_vert tri v tol2 2 = false ->
+    Qltb (edge_d2 tri (long_side tri)) tol2 = true ->
+    get_barycentric v tri tol = (1, 0, 0).
+Proof. exact point_branch. Qed.
+Print Assumptions barycentric_point_partial.
+
+Example barycentric_snap_edge_example :
+  (* v is 1/1000 outside edge P0P1 of a 4-4 right triangle, tolerance 1/100: corner 2 snaps to 0 *)
+  let tri := (mkQ3 0 0 0, mkQ3 4 0 0, mkQ3 0 4 0) in
+  edge_snapped tri (mkQ3 1 (-1 # 1000) 0) ((1 # 100) * (1 # 100)) 2 = true /\
+  (let '(a, b, c) := get_barycentric (mkQ3 1 (-1 # 1000) 0) tri (1 # 100) in c == 0 /\ a + b == 1 /\ 0 <= a /\ 0 <= b).
+Proof. vm_compute. repeat split; intro; discriminate. Qed.
+
+(* ---------------------------------------------------------------- related_check_sound
+   The oracle of the check is the extracted check_triangle (RelatedCheckDefs.v), run on
+   integers obtained by scaling the exported doubles by powers of two (positions 2^s,
+   run transform 2^t, properties `one` = 2^r; all predicates are homogeneous).  S is the
+   list of source triangles of the face the output triangle names, transformed exactly
+   by the run transform (prep_x = m34apply4 + the edges/normal GetBarycentric forms).
+   Whenever it answers 0 (accept), for a tolerance tol >= 0:
+   - some non-degenerate triangle ref of the face has all three output corners within
+     Euclidean distance tol of its plane  ((N.(q-P0))^2 <= tol^2 N.N);
+   - the output triangle is oriented like ref times ws (ws = sign(det T), negated for a
+     back-side run), unless its area is below tol^2 or it is perpendicular;
+   - every corner lies in the tol-grown outline of a triangle t of the face (for each edge:
+     on the inner side, or at most tol outside: u^2 <= tol^2 |e|^2 |N|^2), and so does the
+     centroid (stated at scale 3);
+   - for that t, with u the unnormalised barycentric weights of the corner (weight_sum,
+     weight_pos: the weights GetBarycentric's non-snapped branch uses, which reproduce
+     affine fields - barycentric_affine_fields), every channel the source has satisfies
+     |got - sum u_k pv_k / sum u| <= (kn/kd) (1 + max|pv|) when checkProps is set, and every
+     channel it lacks is exactly 0. *)
+Local Open Scope Z_scope.
+Theorem related_check_sound :
+  forall tol ws kn kd one (checkProps : bool) (S : list PTri) q0 q1 q2 g0 g1 g2,
+    0 <= tol ->
+    check_triangle tol ws kn kd one checkProps S q0 q1 q2 g0 g1 g2 = 0 ->
+    exists ref, In ref S /\ vdot (pn ref) (pn ref) <> 0 /\
+      plane_close tol ref q0 /\ plane_close tol ref q1 /\ plane_close tol ref q2 /\
+      orient_ok tol ws ref q0 q1 q2 /\
+      corner_ok tol kn kd one checkProps S q0 g0 /\ corner_ok tol kn kd one checkProps S q1 g1 /\
+      corner_ok tol kn kd one checkProps S q2 g2 /\
+      exists t, In t S /\ inside (3 * tol) (scale_t 3 t) (vadd3 q0 q1 q2).
+Proof. exact check_triangle_sound_l. Qed.
+Print Assumptions related_check_sound.
+
+(* the weights the checker interpolates with are the barycentric numerators: they sum to
+   N.N and reproduce the position up to the off-plane component, for every point q *)
+Theorem related_check_weights :
+  forall p0 p1 p2 props q,
+    let t := prep p0 p1 p2 props in
+    weight t q 0 + weight t q 1 + weight t q 2 = vdot (pn t) (pn t) /\
+    (forall f : V3 -> Z, (f = vx \/ f = vy \/ f = vz) ->
+       weight t q 0 * f p0 + weight t q 1 * f p1 + weight t q 2 * f p2
+       = vdot (pn t) (pn t) * f q - vdot (pn t) (vsub q p0) * f (pn t)).
+Proof. intros p0 p1 p2 props q. exact (conj (weight_sum p0 p1 p2 props q) (weight_pos p0 p1 p2 props q)). Qed.
+Print Assumptions related_check_weights.
+
+(* the face an output triangle names through a user face ID: exactly the source triangles carrying that ID *)
+Theorem related_check_face_by_id :
+  forall ids f k, In k (face_by_id ids f 0) <-> exists j, nth_error ids j = Some f /\ k = Z.of_nat j.
+Proof. intros ids f k. exact (face_by_id_sound ids f 0 k). Qed.
+Print Assumptions related_check_face_by_id.
+
+Example related_check_example :
+  let S := [prep (mkV3 0 0 0) (mkV3 8 0 0) (mkV3 0 8 0) [(0, 16, 0)]] in
+  check_triangle 1 1 1 1000 1 true S (mkV3 0 0 0) (mkV3 4 0 0) (mkV3 0 4 0) [0] [8] [0] = 0 /\
+  check_triangle 1 1 1 1000 1 true S (mkV3 0 0 0) (mkV3 4 0 0) (mkV3 0 4 0) [0] [9] [0] = 6 /\
+  check_triangle 1 1 1 1000 1 true S (mkV3 0 0 0) (mkV3 0 4 0) (mkV3 4 0 0) [0] [0] [8] = 3 /\
+  check_triangle 1 1 1 1000 1 true S (mkV3 0 0 5) (mkV3 4 0 5) (mkV3 0 4 5) [0] [8] [0] = 2 /\
+  check_triangle 1 1 1 1000 1 true S (mkV3 0 0 0) (mkV3 12 0 0) (mkV3 0 4 0) [0] [8] [0] = 4.
+Proof. vm_compute. repeat split; reflexivity. Qed.
+
+(* ---------------------------------------------------------------- prop_key_dedup
+   CreateProperties (src/boolean_result.cpp) ported: per corner the key
+   (PQ, idMissProp | vert, source prop vertex | min, -1 | max) and the two containers
+   (propMissIdx[PQ][z] for retained vertices, the bins propIdx[y] otherwise).
+   For every list of corners processed in order: two corners receive the same property
+   vertex only if they come from the same operand (PQ), have the same key.z (the retained
+   source property vertex, or the smaller one of the edge, or -1), and EITHER the same
+   key.y and key.w (same position vertex of the result and same larger source property
+   vertex - edge and face-interior cases; for an operand WITHOUT channels key.y is
+   idMissProp for every corner, so all its corners share one all-zero property vertex) OR
+   both are retained-vertex corners (key.y = idMissProp, z >= 0: same operand and same
+   source property vertex; the position vertex is not part of that key - it is the same
+   only because a source property vertex sits at one source position vertex, a fact
+   about the operand's mesh, not about this code). *)
+Local Open Scope Z_scope.
+Theorem prop_key_dedup :
+  forall idMiss (cs : list Corner) i j ci cj v,
+    nth_error cs i = Some ci -> nth_error cs j = Some cj ->
+    nth_error (assign_props idMiss 0 [] cs) i = Some v -> nth_error (assign_props idMiss 0 [] cs) j = Some v ->
+    let '(xi, yi, zi, wi) := prop_key idMiss ci in
+    let '(xj, yj, zj, wj) := prop_key idMiss cj in
+    cPQ ci = cPQ cj /\ zi = zj /\
+    ((yi = yj /\ wi = wj) \/ (yi = idMiss /\ yj = idMiss /\ 0 <= zi)).
+Proof. exact dedup_main. Qed.
+Print Assumptions prop_key_dedup.
+
+(* the key, case by case: no channels / retained vertex (some uvw_j == 1) / on an edge (some uvw_e == 0,
+   none 1: both source property vertices of that edge) / face interior *)
+Theorem prop_key_cases_spec :
+  forall idMiss c,
+    let k := prop_key idMiss c in
+    (cOldNumProp c <= 0 /\ k = ((if cPQ c then 1 else 0), idMiss, -1, -1)) \/
+    (0 < cOldNumProp c /\ exists j, 0 <= j <= 2 /\ nth3 (cUVW c) j = WOne /\
+        k = ((if cPQ c then 1 else 0), idMiss, nth3 (cSrcProp c) j, -1)) \/
+    (0 < cOldNumProp c /\ exists e, 0 <= e <= 2 /\ nth3 (cUVW c) e = WZero /\
+        k = ((if cPQ c then 1 else 0), cVert c,
+             Z.min (nth3 (cSrcProp c) (next3z e)) (nth3 (cSrcProp c) (prev3z e)),
+             Z.max (nth3 (cSrcProp c) (next3z e)) (nth3 (cSrcProp c) (prev3z e)))) \/
+    (0 < cOldNumProp c /\ k = ((if cPQ c then 1 else 0), cVert c, -1, -1)).
+Proof. exact prop_key_cases. Qed.
+Print Assumptions prop_key_cases_spec.
+
+Example prop_key_dedup_example :
+  (* two corners of P on the same result vertex 7 and the same source edge (5,9) share; a corner of a channel-less Q does not *)
+  assign_props 100 0 [] [mkCorner true 7 2 (WZero, WOther, WOther) (3, 5, 9); mkCorner true 7 2 (WOther, WOther, WZero) (9, 5, 4);
+                         mkCorner false 7 0 (WOther, WOther, WOther) (0, 0, 0); mkCorner true 8 2 (WOne, WZero, WZero) (3, 5, 9)]
+  = [0; 0; 1; 2].
+Proof. reflexivity. Qed.
+
+(* ---------------------------------------------------------------- carry-over of refs and property vertices
+   Subdivide copies the parent's TriRef to every sub-triangle. *)
+Theorem subdivide_keeps_refs :
+  forall R (refs : list R) counts r, In r (subdivide_refs refs counts) -> In r refs.
+Proof. exact subdivide_refs_parent. Qed.
+Print Assumptions subdivide_keeps_refs.
+
+(* CollapseEdge (edge_op.cpp, "Orbit startVert"): a halfedge around the removed vertex is re-pointed to
+   endVert's property vertex only if its property vertex is startProp0 (the one on tri0) or startProp1
+   (the one on tri1); ANY OTHER property vertex is kept although its position vertex changes.  This is
+   the branch that loses the interpolation in the known finding
+   property-not-interpolated:corpus-tet-edge-in-cube-face: earlier short-edge collapses merge coincident
+   new vertices at (0,0,1), so the surviving vertex carries several property vertices of the SAME cube face
+   (equal values, different indices: CreateProperties keys include the position vertex); the following
+   colinear collapse (0,0,1) -> (0.5,0,1) along the cube edge has startProp0 = 2, startProp1 = 11, and
+   the two bottom-face triangles that use property vertex 8 (same face as tri1) keep it: their corner
+   now sits at (0.5,0,1) with the value interpolated for (0,0,1).  A repair has to re-point by face
+   (triRef SameFace with tri0/tri1), or merge equal property vertices before collapsing. *)
+Theorem collapse_edge_keeps_third_property_vertex :
+  forall sp0 ep0 sp1 ep1 p, p <> sp0 -> p <> sp1 -> collapse_prop sp0 ep0 sp1 ep1 p = p.
+Proof. exact collapse_prop_third. Qed.
+Print Assumptions collapse_edge_keeps_third_property_vertex.
+
+Example collapse_edge_witness : collapse_prop 2 6 11 10 8 = 8 /\ collapse_prop 2 6 11 10 2 = 6 /\ collapse_prop 2 6 11 10 11 = 10.
+Proof. repeat split; reflexivity. Qed.
